@@ -20,6 +20,13 @@ CVC5 = os.environ.get('VERIF_CVC5', 'cvc5')
 Z3_OLD = os.environ.get('VERIF_Z3_BIN', '/usr/bin/z3')
 
 
+def _has_fp(e):
+    try:
+        return 'fp.' in e.sexpr() or 'to_fp' in e.sexpr()
+    except Exception:
+        return False
+
+
 def _res(r):
     if r == z3.sat:
         return 'sat'
@@ -139,6 +146,17 @@ class Smt:
     # -- queries -------------------------------------------------------------------------
     def check(self, extra=(), important=False):
         """Return 'sat' | 'unsat' | 'unknown'."""
+        t_all = time.time()
+        try:
+            return self._check(extra, important)
+        finally:
+            if os.environ.get('VERIF_TRACE') and time.time() - t_all > 2:
+                import traceback
+                with open(os.environ['VERIF_TRACE'], 'a') as fh:
+                    fh.write('SLOW %.1fs pid=%d asserts=%d %s\n' % (time.time() - t_all, os.getpid(), len(self.assertions),
+                                                                   ' <- '.join('%s:%d' % (f.name, f.lineno) for f in traceback.extract_stack()[-6:-1])))
+
+    def _check(self, extra=(), important=False):
         t0 = time.time()
         self.z3.push()
         for e in extra:
@@ -149,12 +167,14 @@ class Smt:
         self.time['z3'] += time.time() - t0
         res = _res(r)
         if res == 'unknown':
-            t1 = time.time()
-            res, out = self.cvc5_intblast(extra)
-            self.counts['cvc5-intblast'] += 1
-            self.time['cvc5-intblast'] += time.time() - t1
-            if res == 'error':
-                res = 'unknown'
+            has_fp = any(_has_fp(e) for e in list(extra) + self.assertions[-40:])
+            if not has_fp:
+                t1 = time.time()
+                res, out = self.cvc5_intblast(extra)
+                self.counts['cvc5-intblast'] += 1
+                self.time['cvc5-intblast'] += time.time() - t1
+                if res == 'error':
+                    res = 'unknown'
             if res == 'unknown':
                 t2 = time.time()
                 s = z3.Solver()
